@@ -51,7 +51,7 @@ class TableCoverage(FragmentTask):
         if out.kind != "ret":
             return
         mid = out.value.get("middle")
-        ctx.oblige("post.fragment-defines-middle", mid is not None, "P")
+        ctx.structure("post.fragment-defines-middle", mid is not None)
         if mid is None:
             return
         total = inp["d"].n
@@ -99,7 +99,7 @@ class Extrema(FragmentTask):
             return
         mn, mx = out.value.get("minimum"), out.value.get("maximum")
         ok = mn is not None and mx is not None and is_z3(to_z3(mn)) and is_z3(to_z3(mx))
-        ctx.oblige("post.fragment-defines-minimum-and-maximum", ok, "P")
+        ctx.structure("post.fragment-defines-minimum-and-maximum", ok)
         if not ok:
             return
         NB, MINS, MAXS = inp["NB"], inp["MINS"], inp["MAXS"]
